@@ -76,7 +76,7 @@ non-trivial = >= 2 hops with a non-empty body, or a hop that changes authority o
             prop_oneof![3 => Just("POST"), 2 => Just("PUT"), 1 => Just("PATCH"), 1 => Just("GET"), 1 => Just("DELETE")],
             proptest::collection::vec(hop_url(), 2..6),
             proptest::collection::vec(prop_oneof![1 => Just(301u16), 1 => Just(302u16), 1 => Just(303u16), 4 => Just(307u16), 4 => Just(308u16)], 5),
-            proptest::collection::vec(crate::props::c07::build_op().prop_filter("no params here", |o| !matches!(o, BuildOp::Param(..) | BuildOp::Params(..))), 0..5),
+            proptest::collection::vec(crate::props::c07::build_op().prop_filter("no params here", |o| !matches!(o, BuildOp::Param(..) | BuildOp::Params(..) | BuildOp::Query(..))), 0..5),
             crate::props::c07::body_spec().prop_map(|b| match b {
                 // failing bodies are C07's subject
                 BodySpec::Custom(mut p) => {
